@@ -233,8 +233,13 @@ Lemma source_cancel_ok : forall a b s ck,
     s_queue s' = s_queue s ++ [PEof (hdr_of (q_conf (s_p s)) TOWARDS_RECEIVER) C_CANCEL_REQUEST ck (q_progress (s_p s)) None] /\
     (sc_mode (q_conf (s_p s)) = ACKED ->
        s_step s' = SS_WAITING_FOR_EOF_ACK /\ s_state s' = ST_BUSY /\ q_progress (s_p s') = q_progress (s_p s) /\
-       q_cond_eof (s_p s') = Some C_CANCEL_REQUEST) /\
-    (sc_mode (q_conf (s_p s)) <> ACKED -> s_state s' = ST_IDLE /\ s_step s' = SS_IDLE).
+       q_cond_eof (s_p s') = Some C_CANCEL_REQUEST /\
+       log_s s' = (if l_ind_eof_sent (s_cfg s) then [EvEofSent a b] else []) ++ log_s s) /\
+    (sc_mode (q_conf (s_p s)) <> ACKED ->
+       s_state s' = ST_IDLE /\ s_step s' = SS_IDLE /\
+       log_s s' = (if l_ind_fin (s_cfg s)
+                   then [EvFinished a b C_CANCEL_REQUEST DATA_INCOMPLETE FS_UNREPORTED None] else []) ++
+                  (if l_ind_eof_sent (s_cfg s) then [EvEofSent a b] else []) ++ log_s s).
 Proof.
   intros a b s ck Hrdy Htid Hst Hrc Hce _ Hck.
   unfold cancel_request_s, bind, get. apply Z.ltb_ge in Hrdy. rewrite Hrdy, Htid, !Z.eqb_refl. cbn [andb].
@@ -257,9 +262,11 @@ Proof.
       by (apply checksum_calculation_eq; rewrite <- Hck; apply checksum_calculation_frame; reflexivity)
   end.
   rewrite Hc1. clear Hc1 Hck.
-  unfold prepare_eof_pdu, handle_eof_sent, start_positive_ack_procedure_s, srcfg_or_assert, stid_or_assert,
-    smode_is, stmode, sadd_packet, semit, snow, sset_step, sreset_internal, setq, gq, when, modify, gets, get, bind, ret, raise.
-  destruct ieof; destruct cmode as [|pm|pm]; cbn;
+  unfold log_s.
+  unfold prepare_eof_pdu, handle_eof_sent, notice_of_completion_s, start_positive_ack_procedure_s, srcfg_or_assert,
+    stid_or_assert, smode_is, stmode, sadd_packet, semit, snow, sset_step, sreset_internal, setq, gq, when, modify, gets,
+    get, bind, ret, raise.
+  destruct ieof; destruct ifin; destruct cmode as [|pm|pm]; cbn;
     (eexists; split; [reflexivity|]); cbn; (split; [reflexivity|]);
     (split; intros Hm; [try discriminate Hm | try (exfalso; apply Hm; reflexivity)]);
     repeat split; reflexivity.
